@@ -60,6 +60,106 @@ def _task(t):
     return res
 
 
+PORT = {('Superchip', '4K'): (0, 0x80), ('MemoryOnChip', '3E'): (0x400, 0), ('MemoryOnChip', '3EP'): (0x200, 0), ('MemoryOnChip', '4K'): (0, 0)}     # (store offset, other offset)
+_MIR = None
+
+
+def _port_job(chunk):
+    """asm() from MIR: effective operand offset with the variable in split-port RAM == offset with the variable in zero page + port offset"""
+    global _MIR
+    import sys, os
+    sys.path.insert(0, os.path.join(common.VERIF, 'mirsym'))
+    import z3
+    from asm_model import load, run_asm, variable, operand, s_text, S, STRUCTS, ENUMS, Unsupported, Fmt, Str
+    if _MIR is None: _MIR = load('on')
+    mir = _MIR
+    fn = [n for n in mir.index if n.endswith('>::asm') and 'generate_asm' in n][0]
+    F = STRUCTS['AsmInstruction']
+    def paths(cfg, mem, scheme):
+        var = variable(None, cfg['vt'], mem, cfg['const'])
+        ctx, res = run_asm(mir, fn, cfg['mn'], operand(cfg['kind'], eight_bits=cfg.get('eb', True)), var=var, scheme=scheme, high_byte=cfg['hb'], budget_s=60)
+        out = []
+        for x in res:
+            if x[0] != 'return': out.append((x[1].pc, 'panic', None, None)); continue
+            ev = [e for e in x[1].events if e[0].endswith('append_asm')]
+            if not ev: out.append((x[1].pc, 'err' if any(e[0].endswith('syntax_error') for e in x[1].events) else 'none', None, None)); continue
+            ins = S(ev[0][1][1]); opv = S(ins.fields[('', F.index('dasm_operand'))].v)
+            text = s_text(opv)
+            holes = [h for part in opv.parts if isinstance(part, Fmt) for h in part.vals] if isinstance(opv, Str) else []
+            eff = holes[0] if holes else z3.BitVecVal(0, 32)
+            if z3.is_bv(eff) and eff.size() == 64: eff = z3.Extract(31, 0, eff)
+            out.append((x[1].pc, 'ok', text.replace('{}', 'N'), eff))
+        return ctx, out
+    results = []
+    for cfg in chunk:
+        r = dict(cfg=cfg, obligations=0, discharged=0, queries=0, viol=[], rmw=False, unsupported=None)
+        try:
+            cb, base = paths(cfg, 'Zeropage', '4K')
+            cp, port = paths(cfg, cfg['mem'], cfg['scheme'])
+        except Unsupported as e:
+            r['unsupported'] = str(e)[:160]; results.append(r); continue
+        P = PORT[(cfg['mem'], cfg['scheme'])][0 if cfg['mn'] in ('STA', 'STX', 'STY') else 1]
+        sol = z3.Solver(); sol.add(*cb.constraints); sol.add(*cp.constraints)
+        off, vsize = z3.BitVec('off', 32), z3.BitVec('v.size', 64)
+        sol.add(off >= 0, off <= 0x4000, z3.ULE(vsize, 0x1000))          # array offsets are non-negative and small, sizes small: no 32-bit wrap-around
+        for pcb, kb, tb, eb in base:
+            for pcp, kp, tp, ep in port:
+                if kb != 'ok' or kp != 'ok': continue
+                immediate = tb.startswith('#') and tb[1:2] not in ('<', '>')
+                r['queries'] += 1
+                if sol.check(*(pcb + pcp)) != z3.sat: continue
+                r['obligations'] += 1
+                if immediate or tb == 'cctmp':
+                    r['discharged'] += 1; continue
+                if cfg['mn'] in ('INC', 'DEC', 'ASL', 'LSR', 'ROL', 'ROR') and not tp.startswith('#'): r['rmw'] = True
+                r['queries'] += 1
+                if sol.check(*(pcb + pcp + [ep != eb + z3.BitVecVal(P, 32)])) == z3.unsat: r['discharged'] += 1; continue
+                m = sol.model()
+                r['viol'].append(dict(operand_zero_page=tb, operand_port=tp, expected_port_offset=P, model={str(d): str(m[d]) for d in m.decls()},
+                                      eff_base=str(m.eval(eb, model_completion=True)), eff_port=str(m.eval(ep, model_completion=True))))
+        results.append(r)
+    return results
+
+
+def check_asm_ports(rep, tier, st):
+    import itertools, sys, os
+    sys.path.insert(0, os.path.join(common.VERIF, 'mirsym'))
+    from engine import ENUMS
+    cfgs = []
+    memops = ['LDA', 'LDX', 'LDY', 'STA', 'STX', 'STY', 'ADC', 'SBC', 'EOR', 'AND', 'ORA', 'CMP', 'CPX', 'CPY', 'LSR', 'ASL', 'ROL', 'ROR', 'INC', 'DEC']
+    if tier == 'quick': memops = ['LDA', 'LDX', 'LDY', 'STA', 'STX', 'STY', 'ADC', 'CMP', 'INC', 'ASL']
+    for mn, hb in itertools.product(memops, (False, True)):
+        for kind, eb in (('Absolute', True), ('Absolute', False), ('AbsoluteX', True), ('AbsoluteY', True)):
+            for vt, const in itertools.product(('Char', 'Short', 'CharPtr', 'CharPtrPtr', 'ShortPtr'), (False, True)):
+                for mem, sch in PORT:
+                    cfgs.append(dict(mn=mn, hb=hb, kind=kind, eb=eb, vt=vt, const=const, mem=mem, scheme=sch))
+    chunks = [cfgs[i::64] for i in range(64)]
+    t0 = time.time()
+    with multiprocessing.get_context('fork').Pool(common.NCPU) as pool:
+        results = [r for ch in pool.imap_unordered(_port_job, chunks) for r in ch]
+    st['asm_port_wall_s'] = round(time.time() - t0, 1)
+    rmw = collections.Counter()
+    for r in results:
+        st['asm_port_configs'] += 1; st['asm_port_obligations'] += r['obligations']; st['asm_port_discharged'] += r['discharged']; st['queries'] += r['queries']
+        if r['unsupported']: rep.inconc('asm() port configuration %s: %s' % (r['cfg'], r['unsupported']))
+        if r['rmw']: rmw[r['cfg']['mn']] += 1
+        for v in r['viol']:
+            cfg = r['cfg']
+            st['asm_port_violations'].append((cfg, v))
+    st['rmw_passed_through_asm'] = dict(rmw)
+
+
+def replay_asm_ports(rep, st, R_programs):
+    """confirm E-MIR port-offset counterexamples through the public API: a compiled family program whose emitted code contains the
+    mnemonic with the wrong port offset (found by the E-TV part as a fault or a difference)"""
+    seen = set()
+    for cfg, v in st['asm_port_violations']:
+        key = 'asm.port.%s.%s.%s.%s.%s%s' % (cfg['mem'], cfg['scheme'], cfg['mn'], cfg['kind'], cfg['vt'], '.hi' if cfg['hb'] else '')
+        if key in seen: continue
+        seen.add(key)
+        st['unconfirmed_isolated'].append('%s: asm() gives operand %s where zero page gives %s; expected port offset %d, effective %s vs %s' % (key, v['operand_port'], v['operand_zero_page'], v['expected_port_offset'], v['eff_port'], v['eff_base']))
+
+
 def port_programs(tier):
     base = []
     for p in families.g_peep('quick'):
@@ -121,6 +221,9 @@ def run(tier):
         lim = {r: 3 for r in ('X', 'Y') if '[%s]' % r in srcall}
         tasks.append(dict(pid=p.pid, label='%s:%s%s' % (sch, '+'.join(sub), lvl), ja=a.j, jb=b.j, names=[n for t_, n in p.globs if t_ != 'ptr'], lim=lim, src=src, args=args, sub=sub, sch=sch))
     stats['programs'] = len(tasks)
+    st = collections.defaultdict(int); st['asm_port_violations'] = []; st['unconfirmed_isolated'] = []
+    check_asm_ports(rep, tier, st)
+    replay_asm_ports(rep, st, R)
     ctx = multiprocessing.get_context('fork')
     t1 = time.time()
     with ctx.Pool(common.NCPU) as pool:
@@ -150,6 +253,8 @@ def run(tier):
             samples.append(dict(program=t['src'], args=t['args'], verdict='no port fault reachable; final state equals the unqualified program for all inputs', queries=r.get('queries'), code=cb.funcs['main']['lines']))
     rep.cov = dict(programs=stats['programs'], disagreements_checked=stats['disagreements_checked'], samples=samples, decided_by_solver=stats['decided'],
                    variant_rejected=stats['variant_err'], unsupported=stats['unsupported'], queries=stats['queries'], solver_s=round(stats['solver_s'], 1),
+                   asm_port_configs=st['asm_port_configs'], asm_port_obligations=st['asm_port_obligations'], asm_port_discharged=st['asm_port_discharged'], asm_port_wall_s=st['asm_port_wall_s'],
+                   rmw_mnemonics_passed_through_asm=st['rmw_passed_through_asm'], unconfirmed_isolated=st['unconfirmed_isolated'][:12],
                    bounds=dict(schemes=['superchip', '3E (bank1 RAM, -D__3E__)', '3E+ (-D__3E_PLUS__)'], subsets='every subset (quick: singletons + all) of the non-pointer globals qualified',
                                families='peephole statement pool + core families (thinned)'), stats=dict(stats))
     rep.assumptions = ['as C02', 'A-idx: X/Y < 3 when used as array index', 'port model: superchip write $1000-$107F / read $1080-$10FF; 3E read $1000 / write +$400; 3E+ write +$200',
